@@ -85,6 +85,10 @@ func DriveTree(r *rec.Rec, rng *rand.Rand, run, ops int, variant string) {
 		sweepRun = run
 		kind = []string{"int", "cmp", "set"}[(run/2)%3]
 	}
+	breathe, shrinking := kind == "breathe", false
+	if breathe {
+		kind = []string{"int", "cmp", "rev", "set", "zero"}[run%5]
+	}
 	cascade := kind == "cascade"
 	if cascade {
 		kind = []string{"int", "cmp", "set"}[run%3]
@@ -156,11 +160,63 @@ func DriveTree(r *rec.Rec, rng *rand.Rand, run, ops int, variant string) {
 		call("Put", []int{k, v}, true, func() any { m.Put(k, v); return 0 })
 		present[cls(k)] = true
 	}
+	inner := func() (n int, s ShapeInt) { // number of inner nodes (steering only)
+		rec.Try(func() { s = sh.ShapeInt() })
+		for _, nd := range s.Nodes {
+			if !nd.Leaf {
+				n++
+			}
+		}
+		return n, s
+	}
+	var lookup func(k int)
 	del := func(k int) {
+		before := 0
+		if breathe {
+			before, _ = inner()
+		}
 		call("Delete", []int{k}, true, func() any { m.Delete(k); return 0 })
 		delete(present, cls(k))
+		if !breathe || dead {
+			return
+		}
+		// this Delete made inner nodes merge (a cascade): at once make a leaf split again, with no other merge in between
+		after, s := inner()
+		if after >= before || coarse {
+			return
+		}
+		for _, nd := range s.Nodes {
+			if !nd.Leaf || nd.N < 2 {
+				continue
+			}
+			lo, hi := nd.Keys[0], nd.Keys[nd.N-1]
+			if lo > hi {
+				lo, hi = hi, lo
+			}
+			free := []int{}
+			for k := lo + 1; k < hi; k++ {
+				if !present[cls(k)] {
+					free = append(free, k)
+				}
+			}
+			if len(free) < 16-nd.N {
+				continue
+			}
+			nodes := len(s.Nodes)
+			for _, k := range free {
+				put(k)
+				var s2 ShapeInt
+				rec.Try(func() { s2 = sh.ShapeInt() })
+				if dead || len(s2.Nodes) != nodes {
+					break
+				}
+			}
+			lookup(lo)
+			lookup(hi)
+			break
+		}
 	}
-	lookup := func(k int) {
+	lookup = func(k int) {
 		var s ShapeInt
 		if msg := rec.Try(func() { s = sh.ShapeInt() }); msg != "" {
 			return
@@ -485,6 +541,18 @@ func DriveTree(r *rec.Rec, rng *rand.Rand, run, ops int, variant string) {
 			wantDel := rng.Intn(100) < 50
 			if size < 4 {
 				wantDel = rng.Intn(100) < 15
+			}
+			if breathe { // the size swings between ~1/5 and ~4/5 of the universe: levels are lost and regained
+				if size > nClasses*4/5 {
+					shrinking = true
+				} else if size < nClasses/5 {
+					shrinking = false
+				}
+				if shrinking {
+					wantDel = rng.Intn(100) < 88
+				} else {
+					wantDel = rng.Intn(100) < 12
+				}
 			}
 			if drain > 0 {
 				wantDel = rng.Intn(100) < 92
